@@ -40,9 +40,10 @@ def obligations(tier):
         for part in (0, 1, 2):     # the accessor list is split in three to spread the work over the cores
             obs.append(Ob(f"accessors/indicator/{spec_name(spec)}/n={n}/part{part}", dict(spec=list(spec), n=n, part=part), CFG, fn="run_ind_accessors", weight=n * 5, budget_s=900))
             obs.append(Ob(f"accessors/hexital/{spec_name(spec)}/n={n}/part{part}", dict(spec=list(spec), n=n, part=part), CFG, fn="run_hex_accessors", weight=n * 5, budget_s=900))
-    for host in ("manager", "indicator", "hexital"):
+    for host in ("manager", "indicator", "hexital", "hexital-tf"):
         obs.append(Ob(f"encodings/{host}", dict(host=host, n=4), CFG, fn="run_encodings", weight=20, budget_s=900))
-        obs.append(Ob(f"encodings-aware-timestamps/{host}", dict(host=host, n=4), CFG, fn="run_encodings_aware", weight=20, budget_s=900))
+        if host != "hexital-tf":
+            obs.append(Ob(f"encodings-aware-timestamps/{host}", dict(host=host, n=4), CFG, fn="run_encodings_aware", weight=20, budget_s=900))
     return obs
 
 
@@ -141,6 +142,9 @@ def run_encodings(ctx, P):
             return CandleManager([], timeframe="T2")
         if host == "indicator":
             return build("EMA", dict(period=2), candles=[], timeframe="T2")
+        if host == "hexital-tf":
+            # the Hexital itself collapses to T2; one member on a nested timeframe of its own
+            return Hexital("hx", [], [build("EMA", dict(period=2)), build("OBV", dict()), build("SMA", dict(period=2), timeframe="T4")], timeframe="T2")
         # the same timeframe spelled three ways (upper / lower case, TimeFrame member) by different members
         return Hexital("hx", [], [build("EMA", dict(period=2)), build("EMA", dict(period=2), timeframe="T2"), build("SMA", dict(period=2), timeframe="T3"),
                                   build("WMA", dict(period=2), timeframe="t2"), build("RMA", dict(period=2), timeframe="enum:MINUTE"), build("HLA", dict(), timeframe="T1"),
@@ -158,7 +162,7 @@ def run_encodings(ctx, P):
         ref.append(c)
     exp = view(ref)
     ctx.observe("reference", exp)
-    if host == "hexital":
+    if host in ("hexital", "hexital-tf"):
         # "delivers the same candle to every timeframe": every member's candle list is what a stand-alone manager of
         # that member's timeframe builds from the same stream
         ohlcv = lambda lst: [dict(ts=ctx.sec_of(c.timestamp), open=c.open, high=c.high, low=c.low, close=c.close, volume=c.volume) for c in lst]
@@ -169,23 +173,24 @@ def run_encodings(ctx, P):
             ctx.equal(f"member {name}: its timeframe received every candle", ohlcv(ind.candles), ohlcv(alone.candles))
         # ... also when the set of members changes half way: one of two members sharing a timeframe is removed, the only
         # member of another timeframe is removed, a new member joins a timeframe already in use
-        h2 = make()
-        src = clone(cs)
-        for c in src[: n // 2]:
-            h2.append(c)
-        names = list(h2.indicators)
-        h2.remove_indicator(names[3])      # WMA on 't2' (EMA stays on 'T2')
-        h2.remove_indicator(names[2])      # SMA, alone on T3
-        h2.remove_indicator(names[6])      # TR on TimeFrame.MINUTE (RMA and HLA stay on that timeframe)
-        h2.add_indicator(build("SMA", dict(period=2), timeframe="T2", name_suffix="late"))
-        for c in src[n // 2:]:
-            h2.append(c)
-        for name, ind in h2.indicators.items():
-            alone = CandleManager([], timeframe=ind.timeframe)
-            for c in clone(cs):
-                alone.append(c)
-            ctx.equal(f"member {name}: its timeframe received every candle although other members came and went", ohlcv(ind.candles), ohlcv(alone.candles))
-            ctx.require(f"member {name}: Hexital.candles(its timeframe) is its candle list", h2.candles(ind.timeframe) is ind.candles or ohlcv(h2.candles(ind.timeframe)) == ohlcv(ind.candles)) if ind.timeframe else None
+        if host == "hexital":
+            h2 = make()
+            src = clone(cs)
+            for c in src[: n // 2]:
+                h2.append(c)
+            names = list(h2.indicators)
+            h2.remove_indicator(names[3])      # WMA on 't2' (EMA stays on 'T2')
+            h2.remove_indicator(names[2])      # SMA, alone on T3
+            h2.remove_indicator(names[6])      # TR on TimeFrame.MINUTE (RMA and HLA stay on that timeframe)
+            h2.add_indicator(build("SMA", dict(period=2), timeframe="T2", name_suffix="late"))
+            for c in src[n // 2:]:
+                h2.append(c)
+            for name, ind in h2.indicators.items():
+                alone = CandleManager([], timeframe=ind.timeframe)
+                for c in clone(cs):
+                    alone.append(c)
+                ctx.equal(f"member {name}: its timeframe received every candle although other members came and went", ohlcv(ind.candles), ohlcv(alone.candles))
+                ctx.require(f"member {name}: Hexital.candles(its timeframe) is its candle list", h2.candles(ind.timeframe) is ind.candles or ohlcv(h2.candles(ind.timeframe)) == ohlcv(ind.candles)) if ind.timeframe else None
     labels = [l for l, _ in encodings(cs[0])]
     for li, label in enumerate(labels):
         h = make()
